@@ -2,6 +2,7 @@ package props
 
 import (
 	"fmt"
+	"strconv"
 	"strings"
 	"testing"
 
@@ -45,6 +46,11 @@ func genCell(t *rapid.T, profile int) string {
 	case 1:
 		if rapid.IntRange(0, 14).Draw(t, "outlier") == 0 {
 			return rapid.SampledFrom([]string{"x", "true", "1,5", "--1"}).Draw(t, "floatoutlier")
+		}
+		if rapid.IntRange(0, 3).Draw(t, "structuredfloat") == 0 {
+			// a number text in one of the usual spellings; what it denotes is decided by strconv in the model
+			f := hx.GenFloatStructured(t)
+			return strconv.FormatFloat(f, rapid.SampledFrom([]byte{'f', 'g', 'e', 'G'}).Draw(t, "ffmt"), rapid.SampledFrom([]int{-1, -1, 17, 20}).Draw(t, "fprec"), 64)
 		}
 		return rapid.SampledFrom(floatCells).Draw(t, "floatcell")
 	case 2:
